@@ -100,7 +100,8 @@ def _solve_bruteforce(D, all_solutions, valid, spin, value):
         mapping = dict(enumerate(var))
 
     best = None, {}
-    all_sols = {None: [{}]}
+    # if no assignment is valid, then there are no solutions to report
+    all_sols = {None: []}
 
     for test_sol in itertools.product((1, -1) if spin else (0, 1), repeat=N):
         x = {mapping[i]: v for i, v in enumerate(test_sol)}
